@@ -390,6 +390,13 @@ fn known_class(i: &Inp, items: Option<&[gitref::Item]>) -> Option<&'static str> 
     {
         return Some("curdir-then-parent-accepted");
     }
+    if !g.literal
+        && i.specs.iter().any(|s| {
+            s.first() == Some(&b':') && s.get(1) != Some(&b'(') && element_path(&g, s).map_or(false, |(_, p)| p.starts_with(b"("))
+        })
+    {
+        return Some("long-magic-after-short-magic");
+    }
     if let Some(items) = items {
         let user = &items[..n.min(items.len())];
         if !i.prefix.is_empty() && (user.iter().all(|it| it.magic & EXCLUDE != 0) || i.specs.iter().any(|s| s == b":")) {
@@ -404,6 +411,14 @@ fn known_class(i: &Inp, items: Option<&[gitref::Item]>) -> Option<&'static str> 
             }
             if g.literal && s.ends_with(b"/") {
                 return Some("literal-default-trailing-slash");
+            }
+            if it.magic & ICASE != 0
+                && it.magic & FROMTOP == 0
+                && !i.prefix.is_empty()
+                && element_path(&g, s).map_or(false, |(_, p)| p.split(|b| *b == b'/').any(|c| c == b".."))
+                && it.m.len() > i.prefix.len() + 1
+            {
+                return Some("icase-prefix-miscounted-after-dotdot");
             }
             if it.magic & ICASE != 0 && it.magic & FROMTOP == 0 && !i.prefix.is_empty() && it.m.len() <= i.prefix.len() + 1 {
                 return Some("icase-prefix-is-whole-path");
